@@ -3,6 +3,7 @@
 //! run against the REAL crate on a recording in-memory backend.
 //!
 //! usage: c07 <n_histories> [only_history_index]
+//!        c07 rec <n_histories> <steps> [only <history>]   allocation-record correspondence, see ../c07_rec.rs
 //! writes into the cwd
 //!   cases.txt   one line per operation (input of the extracted Coq model, `ocaml/c07_driver.ml`)
 //!   impl.txt    the implementation's canonical answer to each line (compared with the model's)
